@@ -17,7 +17,8 @@ Oracles (reference side: mc/ref/diff.py, all own code over the plain-data model)
       positions, contravariance for input positions, no new required input, nothing removed) and
       every generated operation (mc.gen.cs_ops) that is valid against old and touches a type or
       directive the edit touches validates against new (all operations for root / schema-level edits);
-  (d) the sequence of changes is the same for every definition order, route and hash seed.
+  (d) the sequence of changes is the same for every definition order (within each construction
+      route) and every hash seed.
 """
 import atexit
 import json
@@ -393,21 +394,26 @@ def _inproc(item, st):
     base_seq = seqs[("sdl", 0, 0)]
     desc = "%s + %s" % (base, json.dumps(item["edits"]))
 
-    # (d) definition orders and routes
+    # (d) definition orders: every order combination against the identity order of the same route.
+    # Differences between the two routes are only counted: schemas built from SDL carry coerced
+    # default values (e.g. `= 1` at a custom scalar), so the two routes need not build equal schemas.
+    if _cmp_sequences(base_seq, seqs[("code", 0, 0)]) is not None and st is not None:
+        st.n("route_differences_not_judged")
+    reported_order = False
     for (route, a, b), seq in seqs.items():
-        c = _cmp_sequences(base_seq, seq)
+        if (a, b) == (0, 0) or reported_order:
+            continue
+        ref_seq = seqs[(route, 0, 0)]
+        c = _cmp_sequences(ref_seq, seq)
         if c is None:
             continue
-        if (a, b) == (0, 0):
-            out.append(("route-dependent:" + c[0], "sdl-built: %s code-built: %s for %s" % (base_seq, seq, desc)))
-        else:
-            out.append(
-                (
-                    "definition-order-dependent:" + c[0],
-                    "orders(old,new)=%s route=%s: %s versus baseline %s for %s" % ((a, b), route, [x[2] for x in seq], [x[2] for x in base_seq], desc),
-                )
+        reported_order = True
+        out.append(
+            (
+                "definition-order-dependent:" + c[0],
+                "orders(old,new)=%s route=%s: %s versus identity order %s for %s" % ((a, b), route, [x[2] for x in seq], [x[2] for x in ref_seq], desc),
             )
-            break
+        )
 
     ref = R.ref_diff(old_sm, new_sm)
     roots_changed = R.roots_changed(old_sm, new_sm)
